@@ -2,6 +2,8 @@
 mod c02;
 mod c04;
 mod c07;
+mod c09;
+mod wire;
 mod c11;
 mod gen;
 
@@ -15,6 +17,7 @@ fn main() {
         "C02" => c02::run(&args, &mut rep),
         "C04" => c04::run(&args, &mut rep),
         "C07" => c07::run(&args, &mut rep),
+        "C09" => c09::run(&args, &mut rep),
         "C11" => c11::run(&args, &mut rep),
         p => panic!("unknown property {p}"),
     }
